@@ -71,6 +71,78 @@ theorem replace_ids_from_segs (c : Cav) :
   · cases hst
   · simp only [Option.some.injEq] at hst; subst hst; exact ⟨s, hs, rfl, rfl, rfl, rfl⟩
 
+/-! ### the boundary patch: vector area -/
+
+section areavec
+open Refine Refine.Model.Geom Refine.ScalarReal
+
+/-- the three components of `ref_node_tri_normal` (twice the area vector) of the triangle `(x a, x b, p)` -/
+noncomputable def coneNx (x : Int → V3 ℝ) (p : V3 ℝ) (a b : Int) : ℝ := (triNormal (x a) (x b) p).x
+noncomputable def coneNy (x : Int → V3 ℝ) (p : V3 ℝ) (a b : Int) : ℝ := (triNormal (x a) (x b) p).y
+noncomputable def coneNz (x : Int → V3 ℝ) (p : V3 ℝ) (a b : Int) : ℝ := (triNormal (x a) (x b) p).z
+
+theorem coneNx_alt (x : Int → V3 ℝ) (p : V3 ℝ) : Alt2 (coneNx x p) := by
+  refine ⟨fun a b => ?_, fun a => ?_⟩ <;>
+  · simp only [coneNx, triNormal, cross, V3.sub, sub_eq, mul_eq]; ring
+theorem coneNy_alt (x : Int → V3 ℝ) (p : V3 ℝ) : Alt2 (coneNy x p) := by
+  refine ⟨fun a b => ?_, fun a => ?_⟩ <;>
+  · simp only [coneNy, triNormal, cross, V3.sub, sub_eq, mul_eq]; ring
+theorem coneNz_alt (x : Int → V3 ℝ) (p : V3 ℝ) : Alt2 (coneNz x p) := by
+  refine ⟨fun a b => ?_, fun a => ?_⟩ <;>
+  · simp only [coneNz, triNormal, cross, V3.sub, sub_eq, mul_eq]; ring
+
+theorem triBd_coneNx (x : Int → V3 ℝ) (p : V3 ℝ) (t : Tri) :
+    triBd (coneNx x p) t = (triNormal (x t.n0) (x t.n1) (x t.n2)).x := by
+  rw [triBd_eq]; simp only [coneNx, triNormal, cross, V3.sub, sub_eq, mul_eq]; ring
+theorem triBd_coneNy (x : Int → V3 ℝ) (p : V3 ℝ) (t : Tri) :
+    triBd (coneNy x p) t = (triNormal (x t.n0) (x t.n1) (x t.n2)).y := by
+  rw [triBd_eq]; simp only [coneNy, triNormal, cross, V3.sub, sub_eq, mul_eq]; ring
+theorem triBd_coneNz (x : Int → V3 ℝ) (p : V3 ℝ) (t : Tri) :
+    triBd (coneNz x p) t = (triNormal (x t.n0) (x t.n1) (x t.n2)).z := by
+  rw [triBd_eq]; simp only [coneNz, triNormal, cross, V3.sub, sub_eq, mul_eq]; ring
+
+/-- one component of the area statement -/
+theorem area_component (ψ : Int → Int → ℝ) (hψ : Alt2 ψ) (N : Tri → ℝ) (hN : ∀ t, triBd ψ t = N t) (g : Grid α)
+    (c : Cav)
+    (hchain : ∀ χ : Int → Int → ℝ, Alt2 χ → segSum χ c.validSegs = (c.triList.map (triBdAt χ g)).sum) :
+    ((newTris c).map N).sum =
+      (c.triList.map fun cell => match g.tris.get? cell with | some t => N t | none => 0).sum := by
+  have := replace_conforming_2d hψ g c hchain
+  have e1 : (newTris c).map (triBd ψ) = (newTris c).map N := List.map_congr_left (fun t _ => hN t)
+  have e2 : c.triList.map (triBdAt ψ g) =
+      c.triList.map fun cell => match g.tris.get? cell with | some t => N t | none => 0 := by
+    apply List.map_congr_left
+    intro cell _
+    unfold triBdAt
+    cases g.tris.get? cell with
+    | none => rfl
+    | some t => exact hN t
+  rw [e1, e2] at this
+  exact this
+
+/-- **replace_area_vector.**  When the live segs are the signed boundary of the listed boundary tris (for every
+    antisymmetric edge cochain — the seg chain `insertSeg_ledger` tracks), the boundary tris `ref_cavity_replace`
+    creates have exactly the VECTOR area of the tris it removes: each component of `Σ ref_node_tri_normal` is
+    conserved, in exact arithmetic, for any position of the seg node and any shape of the patch.  On a planar patch
+    this is the conservation of the (signed) patch area. -/
+theorem replace_area_vector (x : Int → V3 ℝ) (g : Grid α) (c : Cav)
+    (hchain : ∀ χ : Int → Int → ℝ, Alt2 χ → segSum χ c.validSegs = (c.triList.map (triBdAt χ g)).sum) :
+    ((newTris c).map fun t => (triNormal (x t.n0) (x t.n1) (x t.n2)).x).sum =
+      (c.triList.map fun cell => match g.tris.get? cell with
+        | some t => (triNormal (x t.n0) (x t.n1) (x t.n2)).x | none => 0).sum ∧
+    ((newTris c).map fun t => (triNormal (x t.n0) (x t.n1) (x t.n2)).y).sum =
+      (c.triList.map fun cell => match g.tris.get? cell with
+        | some t => (triNormal (x t.n0) (x t.n1) (x t.n2)).y | none => 0).sum ∧
+    ((newTris c).map fun t => (triNormal (x t.n0) (x t.n1) (x t.n2)).z).sum =
+      (c.triList.map fun cell => match g.tris.get? cell with
+        | some t => (triNormal (x t.n0) (x t.n1) (x t.n2)).z | none => 0).sum := by
+  have p : V3 ℝ := x 0
+  exact ⟨area_component (coneNx x p) (coneNx_alt x p) _ (triBd_coneNx x p) g c hchain,
+    area_component (coneNy x p) (coneNy_alt x p) _ (triBd_coneNy x p) g c hchain,
+    area_component (coneNz x p) (coneNz_alt x p) _ (triBd_coneNz x p) g c hchain⟩
+
+end areavec
+
 /-! ### grid level -/
 
 theorem removed_tri_sum (φ : Int → Int → Int → G) (g : Grid α) (cells : List Int) (rs : List Tri)
@@ -389,6 +461,18 @@ theorem formEdgeSwap_ledger {φ : Int → Int → Int → G} (hφ : Alt φ) (hd 
     (hextra : c'.tetList = (g.tets.having2 Tet.nodes n0 n1).map fun p => (p.1 : Int)) :
     EdgeFormed φ g n0 n1 c' ∧ LedgerEq φ g c' := by
   have hf := formEdgeSwap_formed hφ hd g n0 n1 node c' h hs hne hextra
+  exact ⟨hf, hf.ledgerEq (edgeMatched_of_conforming hφ g n0 n1 hg.tetsOrder hg.trisOrder (hg.conf G))⟩
+
+/-- **formEdgeSplit_ledger** (`ref_cavity_form_edge_split`: the tets around the edge, the one or two boundary tris on
+    it, the sides of those tris other than the edge as segs — plus the two explicit half-edge segs when there is one
+    tri only).  Same statement as for the swap: on a conforming grid a call that returns ok / state unknown and pulled
+    no further tet in leaves a cavity that lists exactly the cells around the edge and satisfies the ledger equation. -/
+theorem formEdgeSplit_ledger {φ : Int → Int → Int → G} (hφ : Alt φ) (hd : Diag φ) (g : Grid α) (hg : MeshConf g)
+    (n0 n1 newNode : Int) (c' : Cav) (h : formEdgeSplit g Cav.create n0 n1 newNode = (.ok, c'))
+    (hs : c'.state = .unknown) (hne : g.tets.having2 Tet.nodes n0 n1 ≠ [])
+    (hextra : c'.tetList = (g.tets.having2 Tet.nodes n0 n1).map fun p => (p.1 : Int)) :
+    EdgeFormed φ g n0 n1 c' ∧ LedgerEq φ g c' := by
+  have hf := formEdgeSplit_formed hφ hd g n0 n1 newNode c' h hs hne hextra
   exact ⟨hf, hf.ledgerEq (edgeMatched_of_conforming hφ g n0 n1 hg.tetsOrder hg.trisOrder (hg.conf G))⟩
 
 section swappipe
